@@ -231,7 +231,11 @@ var reg = vk.Registry{
 		return checkPair(gen.ByID(s.ID()), v, c.NewSeq, c)
 	},
 	"id": func(raw json.RawMessage) *vk.Violation { var c IDCase; _ = json.Unmarshal(raw, &c); return checkID(c) },
-	"ctor": func(raw json.RawMessage) *vk.Violation { var c CtorCase; _ = json.Unmarshal(raw, &c); return checkCtor(c) },
+	"ctor": func(raw json.RawMessage) *vk.Violation {
+		var c CtorCase
+		_ = json.Unmarshal(raw, &c)
+		return checkCtor(c)
+	},
 }
 
 func TestReplay(t *testing.T) { vk.RunReplay(t, reg) }
